@@ -333,10 +333,16 @@ pub enum ChunkMut {
     HeaderCrcXor(u32),
     PayloadCrcXor(u32),
     EmptyPayload,
+    /// a known device id with one byte replaced
+    DeviceNear { board: u8, byte: u8, val: u8 },
+    /// bytes 0-1 of one known device id with bytes 2-3 of another
+    DeviceMix { a: u8, b: u8 },
 }
 pub fn chunk_mut() -> impl Strategy<Value = ChunkMut> {
     prop_oneof![
         2 => prop_oneof![Just(0u32), any::<u32>()].prop_map(ChunkMut::Device),
+        2 => (0u8..71, 0u8..4, prop_oneof![any::<u8>(), Just(40u8), Just(41u8), Just(232u8), Just(236u8), Just(57u8)]).prop_map(|(board, byte, val)| ChunkMut::DeviceNear { board, byte, val }),
+        2 => (0u8..71, 0u8..71).prop_map(|(a, b)| ChunkMut::DeviceMix { a, b }),
         2 => prop_oneof![Just(3u8), Just(4), Just(255), any::<u8>()].prop_map(ChunkMut::Chip),
         2 => prop_oneof![Just(1u8), Just(2), Just(3), Just(128), any::<u8>()].prop_map(ChunkMut::Flags),
         4 => (-5i8..=5).prop_map(ChunkMut::LengthRel),
@@ -358,6 +364,15 @@ pub fn apply_chunk_mut(m: &mut ChunkModel, mu: &ChunkMut) {
         ChunkMut::HeaderCrcXor(v) => m.header_crc_xor = *v,
         ChunkMut::PayloadCrcXor(v) => m.payload_crc_xor = *v,
         ChunkMut::EmptyPayload => m.payload.clear(),
+        ChunkMut::DeviceNear { board, byte, val } => {
+            let mut b = PADWING_BOARDS[*board as usize % 71].2.to_le_bytes();
+            b[*byte as usize % 4] = *val;
+            m.device_id = u32::from_le_bytes(b);
+        }
+        ChunkMut::DeviceMix { a, b } => {
+            let (x, y) = (PADWING_BOARDS[*a as usize % 71].2.to_le_bytes(), PADWING_BOARDS[*b as usize % 71].2.to_le_bytes());
+            m.device_id = u32::from_le_bytes([x[0], x[1], y[2], y[3]]);
+        }
     }
 }
 
@@ -433,6 +448,8 @@ pub fn pwb_valid() -> impl Strategy<Value = PwbModel> {
                     1 => i16::MAX,
                     2 => -2048,
                     3 => 2047,
+                    // the 16-bit half of the 0xCCCCCCCC end marker, and its neighbours
+                    4 => [-13108i16, -13108, -13107, -13109, 0x0CCC][(r >> 8) as usize % 5],
                     _ => ((r >> 20) as i16) >> 5,
                 }
             };
@@ -718,7 +735,14 @@ pub fn fifo_tail() -> impl Strategy<Value = FifoItem> {
 /// `(entry* block)* entry*` followed optionally by a tail that cannot be parsed.
 pub fn fifo_stream() -> impl Strategy<Value = Vec<FifoItem>> {
     let item = prop_oneof![10 => fifo_entry_item(), 1 => fifo_block()];
-    (vec(item, 0..=60), prop::option::weighted(0.4, fifo_tail())).prop_map(|(mut items, tail)| {
+    // one stream in five has 1-3 stray bytes (or a cut word) between two items: everything
+    // after them is misaligned, and block headers may then start off a word boundary
+    let stray = prop::option::weighted(0.2, (any::<u16>(), vec(prop_oneof![any::<u8>(), Just(0x3Cu8), Just(0u8), Just(0xFEu8), Just(0xFFu8), Just(0x80u8)], 1..=3)));
+    (vec(item, 0..=60), prop::option::weighted(0.4, fifo_tail()), stray).prop_map(|(mut items, tail, stray)| {
+        if let Some((at, bytes)) = stray {
+            let k = pick(at, items.len() + 1);
+            items.insert(k, FifoItem::Raw { bytes });
+        }
         if let Some(t) = tail {
             items.push(t);
         }
@@ -742,6 +766,10 @@ pub enum MsgFault {
     /// chunk i re-encoded with its chunk id raised by 1..=3: leaves a gap in
     /// the ids, or repeats one (a lone chunk then no longer has id 0)
     Renumber(u16, u8),
+    /// the last k bytes of non-final chunk i moved to the front of chunk i+1:
+    /// the concatenated payload is unchanged (still a decodable packet), but
+    /// the non-final chunks no longer have one size (needs >= 3 chunks)
+    Reflow(u16, u8),
 }
 pub fn msg_fault() -> impl Strategy<Value = MsgFault> {
     prop_oneof![
@@ -752,6 +780,7 @@ pub fn msg_fault() -> impl Strategy<Value = MsgFault> {
         any::<u16>().prop_map(MsgFault::ToggleEom),
         (any::<u16>(), any::<bool>()).prop_map(|(i, up)| MsgFault::Resize(i, up)),
         (any::<u16>(), 1u8..=3).prop_map(|(i, d)| MsgFault::Renumber(i, d)),
+        (any::<u16>(), 1u8..=16).prop_map(|(i, k)| MsgFault::Reflow(i, k)),
     ]
 }
 
@@ -841,6 +870,20 @@ impl MsgCase {
                 let k = pick(i, n);
                 c[k].chunk_id = c[k].chunk_id.wrapping_add(d as u16);
                 true
+            }
+            MsgFault::Reflow(i, k) if n >= 3 => {
+                let at = pick(i, n - 1);
+                let len = c[at].payload.len();
+                if len >= 2 && c[at + 1].payload.len() + (k as usize).min(len - 1) <= 65_535 {
+                    let take = (k as usize).min(len - 1);
+                    let moved: Vec<u8> = c[at].payload.split_off(len - take);
+                    let mut next = moved;
+                    next.extend_from_slice(&c[at + 1].payload);
+                    c[at + 1].payload = next;
+                    true
+                } else {
+                    false
+                }
             }
             MsgFault::Resize(i, up) if n >= 3 => {
                 // any non-final chunk but the one the others are compared to
